@@ -19,10 +19,11 @@ import random
 from vf import core
 
 PASSWORD = "c47-password"
-# The unchanged FlowHandler.put reverts on APIError only and keeps an older backup (see findings_proposed/C47.md).
-# Set to True (or VERIF_C47_REPAIRED=1) once the handler restores the pre-request state on every error: the MODEL then
-# describes the repaired code (prediction / drift only; the monitor is the same either way).
-REPAIRED = os.environ.get("VERIF_C47_REPAIRED", "0") == "1"
+# FlowHandler.put used to revert on APIError only and to an older backup; repaired in /repo commit fbda5e579 (state
+# snapshot restored on APIError / ValueError / TypeError / AttributeError, answer 400).  The MODEL constants
+# RevertOnAnyError / BackupPerRequest follow: TRUE (repaired, default) or FALSE (VERIF_C47_REPAIRED=0: the old handler;
+# prediction / drift only, the monitor is the same either way).
+REPAIRED = os.environ.get("VERIF_C47_REPAIRED", "1") == "1"
 # Flow.modified() compares content with the backup since /repo commit ecff67684 (C40 fix); before that it was True
 # whenever a backup existed (ModQuirk = TRUE in the model).
 MOD_QUIRK = os.environ.get("VERIF_C47_MODQUIRK", "0") == "1"
